@@ -139,6 +139,41 @@ func c01Layouts(tier string, f func(i int, l pegen.Layout)) {
 				}
 			}
 		}
+		// section characteristics are irrelevant to the digest: a section flagged "uninitialised data
+		// only" (or with any other flag word) that has raw data is hashed like any other
+		for _, fl := range []uint32{0xC0000080, 0x00000080, 0x00000001, 0xFFFFFFFF, 0x02000000, 0x00000A00, 0x42000040} {
+			for pos := 0; pos <= 2; pos++ {
+				secs := []pegen.Sec{{RawSize: 8}, {RawSize: 13}}
+				secs = append(secs[:pos], append([]pegen.Sec{{RawSize: 16, Flags: fl}}, secs[pos:]...)...)
+				for _, tr := range []int{0, 3} {
+					f(i, pegen.Layout{PE32Plus: plus, Lfanew: 0x40, Secs: secs, Trailing: tr})
+					i++
+				}
+			}
+		}
+		// holes between sections larger than everything behind them: the specification's sweep from
+		// SUM_OF_BYTES_HASHED to the end of the file then covers bytes of the hole
+		for _, gap := range []int{24, 40, 100} {
+			for _, ce := range certs[:2] {
+				f(i, pegen.Layout{PE32Plus: plus, Lfanew: 0x40, Secs: []pegen.Sec{{RawSize: 16}, {RawSize: 8, Gap: gap}}, Certs: ce})
+				i++
+				f(i, pegen.Layout{PE32Plus: plus, Lfanew: 0x40, Secs: []pegen.Sec{{RawSize: 16, Gap: gap}, {RawSize: 8, Gap: gap}}, Trailing: 2, Certs: ce})
+				i++
+			}
+		}
+		// the last section ends the file exactly on (or next to) a multiple of the 32 KiB copy chunk of
+		// the hashed stream: no certificate table, no trailing data, so only padding follows
+		for _, d := range []int{-8, -1, 0, 1, 8} {
+			l := peChunkBoundaryLayout()
+			l.PE32Plus = plus
+			if !plus {
+				l.Secs[0].RawSize += 16
+			}
+			l.Secs[1].RawSize = 32768 + d
+			l.Trailing = 0
+			f(i, l)
+			i++
+		}
 		// a DOS stub of 64 KiB and more: e_lfanew (a 32-bit field) at, just below and above the 16-bit limit
 		for _, lf := range []int{0xfff8, 0x10000, 0x10040, 0x23458} {
 			for _, ce := range certs[:2] {
